@@ -49,10 +49,16 @@ func init() {
 	for i := 0; i < 12; i++ {
 		pre := i%2 == 1
 		var leaf *pki.Cert
+		lk := pki.LoadKey("p256-2")
+		if i == 4 || i == 7 {
+			// a certificate and a precertificate that the lenient parser accepts with a non-fatal remark (RSA key
+			// published without NULL parameters): entries like any other for every matcher
+			lk = pki.LoadKey("rsa2048-1~nonull")
+		}
 		if pre {
-			leaf = pki.NewLeaf(fmt.Sprintf("pre%d", i), pki.LoadKey("p256-2"), ca, pki.LeafOpts{Exts: []pki.Ext{pki.ExtSAN(fmt.Sprintf("p%d.example", i)), pki.ExtPoison()}})
+			leaf = pki.NewLeaf(fmt.Sprintf("pre%d", i), lk, ca, pki.LeafOpts{Exts: []pki.Ext{pki.ExtSAN(fmt.Sprintf("p%d.example", i)), pki.ExtPoison()}})
 		} else {
-			leaf = pki.NewLeaf(fmt.Sprintf("leaf%d", i), pki.LoadKey("p256-2"), ca, pki.LeafOpts{})
+			leaf = pki.NewLeaf(fmt.Sprintf("leaf%d", i), lk, ca, pki.LeafOpts{})
 		}
 		et := ct.X509LogEntryType
 		if pre {
